@@ -84,10 +84,14 @@ def _xml_chars(max_cp=0x10FFFF):
 _SPICY = ["<", ">", "&", '"', "'", "]]>", "&amp;", "&#10;", "<!--", "-->", "<?", "?>", "=", "/", " ", "\n", "\t", "é", "ÿ", "€", "\U0001F315", " ", "x", "0", "-"]
 
 
+_TAGWORDS = ["message", "getProperties", "oneLight", "setTextVector", "defText", "newSwitchVector", "/message", "xml", "CDATA"]
+
+
 def xml_text(max_size=12, max_cp=0x10FFFF):
-    """Free text XML can carry, biased towards markup characters."""
+    """Free text XML can carry, biased towards markup characters and words that look like protocol tags."""
     piece = st.one_of(
         st.sampled_from(_SPICY),
+        st.sampled_from(_SPICY + _TAGWORDS),
         st.text(_xml_chars(max_cp), min_size=1, max_size=4),
         st.text("abcXYZ019_ ", min_size=1, max_size=6),
     )
